@@ -4,6 +4,12 @@
 //!         backend: generic | sse2 | avx2           Pipeline::<Dna, _>::{generic,sse2,avx2}() on StripedScores<T, C>
 //!                  disp-generic | disp-sse2 | disp-avx2   StripedScores::<T, U32>::{max,argmax,threshold} with the arm forced
 //!                  scores                                  Scores::<T>::{max,argmax,threshold} (C = 1, rows = length)
+//!                  any striped backend may carry a suffix saying how the score matrix reaches the call:
+//!                    +c      through `StripedScores::clone()`
+//!                    +e      through `Clone::clone_from` into `StripedScores::empty()`
+//!                    +s<k>   through `clone_from` into a used buffer of k rows, k < rows    (cells f32::MAX / 255)
+//!                    +l<k>   through `clone_from` into a used buffer of k rows, k > rows    (cells f32::MAX / 255)
+//!                  (a copy is the same matrix: the model ignores the suffix, the oracle judges against the cells)
 //!         <t>     threshold (f32 as IEEE bits, u8 in decimal); `-` for max / argmax
 //!         <impl>  argmax only: the implementation's answer (`none`, `row:col`, an offset for disp-* / scores,
 //!                 or `panic`); the model answers `adm-ok` when it designates a cell holding the maximum
@@ -65,6 +71,8 @@ fn expand(toks: &[&str]) -> Vec<u32> {
 trait Elem: MatrixElement + PartialOrd + std::fmt::Debug {
     fn from_u32(x: u32) -> Self;
     fn canon(self) -> u32;
+    /// what the cells of a used destination buffer hold: above every generated cell
+    fn junk() -> Self;
 }
 impl Elem for f32 {
     fn from_u32(x: u32) -> f32 {
@@ -77,6 +85,9 @@ impl Elem for f32 {
             self.to_bits()
         }
     }
+    fn junk() -> f32 {
+        f32::MAX
+    }
 }
 impl Elem for u8 {
     fn from_u32(x: u32) -> u8 {
@@ -84,6 +95,9 @@ impl Elem for u8 {
     }
     fn canon(self) -> u32 {
         self as u32
+    }
+    fn junk() -> u8 {
+        255
     }
 }
 
@@ -94,6 +108,13 @@ enum Got<T> {
     Arg(Option<(usize, usize)>),
     /// coordinates (row, col), in the order returned
     Thr(Vec<(usize, usize)>),
+    /// an equality between two entry points that must agree does not hold
+    Bad(String),
+}
+
+thread_local! {
+    /// how the next `fill` hands its matrix over (the suffix of the backend token)
+    static HOW: std::cell::RefCell<String> = std::cell::RefCell::new(String::new());
 }
 
 fn fill<T: Elem, C: PositiveLength>(rows: usize, max_index: usize, cells: &[T]) -> StripedScores<T, C> {
@@ -105,7 +126,30 @@ fn fill<T: Elem, C: PositiveLength>(rows: usize, max_index: usize, cells: &[T]) 
             m[r][c] = cells[r * C::USIZE + c];
         }
     }
-    s
+    let how = HOW.with(|h| h.borrow().clone());
+    match how.chars().next() {
+        None => s,
+        Some('c') => s.clone(),
+        Some('e') => {
+            let mut d = StripedScores::<T, C>::empty();
+            d.clone_from(&s);
+            d
+        }
+        Some(_) => {
+            // a used buffer with another number of rows
+            let k: usize = how[1..].parse().unwrap();
+            let mut d = StripedScores::<T, C>::default();
+            d.resize(k, k * C::USIZE);
+            let m = d.matrix_mut();
+            for r in 0..k {
+                for c in 0..C::USIZE {
+                    m[r][c] = T::junk();
+                }
+            }
+            d.clone_from(&s);
+            d
+        }
+    }
 }
 
 fn on_pipeline<T: Elem, C: PositiveLength, P: Maximum<T, C> + Threshold<T, C>>(
@@ -179,12 +223,22 @@ fn run_u8(backend: &str, c: usize, op: &str, rows: usize, mi: usize, t: Option<u
 }
 
 fn run_scores<T: Elem>(op: &str, t: Option<T>, cells: &[T]) -> Got<T> {
-    let s = Scores::new(cells.to_vec());
-    match op {
+    // `Scores::new` and `Scores::from(vec)` build the same object; `Deref` / `AsRef` / `Vec::from` give the vector back
+    let s = if cells.len() % 2 == 0 { Scores::new(cells.to_vec()) } else { Scores::from(cells.to_vec()) };
+    let same = |v: &[T]| v.len() == cells.len() && v.iter().zip(cells).all(|(a, b)| a.canon() == b.canon());
+    let d: &Vec<T> = &s;
+    if !same(d) || s.len() != cells.len() || !same(s.as_ref()) {
+        return Got::Bad("Deref / AsRef of Scores do not give the vector it was built from".into());
+    }
+    let got = match op {
         "max" => Got::Max(s.max()),
         "argmax" => Got::Arg(s.argmax().map(|i| (i, 0))),
         _ => Got::Thr(s.threshold(&t.unwrap()).into_iter().map(|i| (i, 0)).collect()),
+    };
+    if !same(&Vec::from(s)) {
+        return Got::Bad("Vec::from(scores) is not the vector the scores were built from".into());
     }
+    got
 }
 
 /// Property oracle, written from the property text over the plain list of cells: the maximum is the
@@ -199,6 +253,7 @@ fn oracle<T: Elem>(rows: usize, c: usize, cells: &[T], t: Option<T>, got: &Got<T
         };
     }
     match got {
+        Got::Bad(e) => Err(e.clone()),
         Got::Max(m) => match (m, best) {
             (None, None) => Ok(()),
             (Some(v), Some(b)) => {
@@ -260,6 +315,7 @@ fn key_hash(keys: &[u64]) -> u64 {
 fn canon<T: Elem>(backend: &str, rows: usize, c: usize, got: &Got<T>) -> (String, String) {
     let api = backend.starts_with("disp-") || backend == "scores";
     match got {
+        Got::Bad(_) => ("bad".into(), "-".into()),
         Got::Max(None) => ("none".into(), "-".into()),
         Got::Max(Some(v)) => (format!("some {}", v.canon()), "-".into()),
         Got::Arg(None) => ("adm-ok".into(), "none".into()),
@@ -322,7 +378,12 @@ fn exec_t<T: Elem>(
 pub fn exec(line: &str) -> (String, String, Option<Result<(), String>>, bool) {
     let t: Vec<&str> = line.split_whitespace().collect();
     assert_eq!(t[0], "c07");
-    let (ty, backend, op) = (t[1], t[2], t[4]);
+    let (ty, op) = (t[1], t[4]);
+    let (backend, how) = match t[2].split_once('+') {
+        Some((b, h)) => (b, h),
+        None => (t[2], ""),
+    };
+    HOW.with(|h| *h.borrow_mut() = how.to_string());
     let c: usize = t[3].parse().unwrap();
     let rows: usize = t[5].parse().unwrap();
     let mi: usize = t[6].parse().unwrap();
@@ -345,6 +406,7 @@ pub fn exec(line: &str) -> (String, String, Option<Result<(), String>>, bool) {
             exec_t(backend, c, op, rows, mi, th, &cells, || run_u8(backend, c, op, rows, mi, th, &cells))
         }
     };
+    HOW.with(|h| h.borrow_mut().clear());
     let mut toks: Vec<String> = t.iter().map(|s| s.to_string()).collect();
     toks[8] = slot;
     (toks.join(" "), ans, o, nt)
@@ -570,6 +632,7 @@ fn thresholds(ty: &str, above: u32, typical: u32) -> Vec<u32> {
 pub fn generate(cfg: &Cfg) -> Vec<String> {
     let mut rng = Rng::new(cfg.seed ^ 0xC07);
     let mut cases = Vec::new();
+    let mut late: Vec<String> = Vec::new();
     generate_isa(&mut rng, &mut cases);
     for ty in ["f32", "u8"] {
         let nkinds = if ty == "f32" { 7 } else { 5 };
@@ -673,6 +736,38 @@ pub fn generate(cfg: &Cfg) -> Vec<String> {
                 cases.push(line(ty, backend, c, op, rows, mi, t, &m));
             }
         }
+        // G. copies: the matrix reaches the call through clone() / clone_from() into an empty, a
+        //    smaller and a larger used buffer (the larger ones are run last of all)
+        let mut crng = Rng::new(cfg.seed ^ 0xC07_0100 ^ (ty.len() as u64));
+        for (backend, c) in combos(ty) {
+            let reps = (if cfg.thorough { 6 } else { 1 }) * cfg.boost;
+            for rep in 0..reps {
+                for &rows in &[0usize, 1, 2, 3, 7, 33, 64] {
+                    let rows = if rep == 0 { rows } else { crng.range(0, 80) };
+                    let n = rows * c;
+                    let kind = crng.below(nkinds);
+                    let (mut m, above, typical) = background(&mut crng, ty, kind, n);
+                    if n > 0 {
+                        // the maximum in the last row now and then: a stale row count misses it
+                        let at = if crng.chance(1, 2) { (rows - 1) * c + crng.below(c) } else { crng.below(n) };
+                        m.over(at, above);
+                    }
+                    let mi = max_index(&mut crng, rows, c);
+                    let mut hows = vec!["c".to_string(), "e".to_string()];
+                    if rows >= 2 {
+                        hows.push(format!("s{}", crng.range(1, rows - 1)));
+                    }
+                    hows.push(format!("l{}", rows + crng.range(1, 5)));
+                    for how in hows {
+                        let b = format!("{}+{}", backend, how);
+                        let dst = if how.starts_with('l') { &mut late } else { &mut cases };
+                        dst.push(line(ty, &b, c, "max", rows, mi, None, &m));
+                        dst.push(line(ty, &b, c, "argmax", rows, mi, None, &m));
+                        dst.push(line(ty, &b, c, "threshold", rows, mi, Some(if crng.chance(1, 2) { above } else { typical }), &m));
+                    }
+                }
+            }
+        }
         // F. Scores<T> (plain vector)
         for len in (0..=40usize).chain([100, 1000]) {
             for kind in 0..nkinds {
@@ -690,6 +785,7 @@ pub fn generate(cfg: &Cfg) -> Vec<String> {
             }
         }
     }
+    cases.extend(late);
     cases
 }
 
@@ -813,7 +909,16 @@ pub fn run(cfg: &Cfg) {
         }
         let (filled, ans, o, nt) = exec(c);
         let t: Vec<&str> = c.splitn(7, ' ').collect();
-        out.stat(&format!("{}/{}/C{}/{}", t[1], t[2], t[3], t[4]));
+        let (bk, how) = t[2].split_once('+').unwrap_or((t[2], ""));
+        out.stat(&format!("{}/{}/C{}/{}", t[1], bk, t[3], t[4]));
+        if !how.is_empty() {
+            out.stat(match &how[..1] {
+                "c" => "copy/clone",
+                "e" => "copy/clone_from-into-empty",
+                "s" => "copy/clone_from-into-smaller",
+                _ => "copy/clone_from-into-larger",
+            });
+        }
         let rows: usize = t[5].parse().unwrap();
         out.stat(match rows {
             0 => "rows/0",
